@@ -68,12 +68,24 @@ pub enum Book {
     B11,
     /// a dormant order in front (nothing displayed, cannot replenish): IC(0,2) S5 S3
     B12,
+    /// S10 S5 S3 after n same-price amendments of #1 (n around 1024: a level with a long history; thresholds on
+    /// the number of removals / stale tickets are crossed by the *next* operation)
+    Hist(u16),
+    /// the 70-order book after k of its orders were cancelled (k around 64: dead tickets outnumber the live orders)
+    Dead(u16),
 }
 
 /// operations applied to the book before the threads start (start from a non-initial state)
 pub fn book_prelude(b: Book) -> Vec<OrderUpdate> {
     match b {
         Book::B10 => (0..36).map(|i| OrderUpdate::Cancel { order_id: oid(100 + i) }).collect(),
+        Book::Dead(k) => (0..k as u64).map(|i| OrderUpdate::Cancel { order_id: oid(100 + i) }).collect(),
+        Book::Hist(n) => (0..n)
+            .map(|_| OrderUpdate::UpdateQuantity {
+                order_id: oid(1),
+                new_quantity: 10,
+            })
+            .collect(),
         Book::B7 => vec![
             OrderUpdate::Cancel { order_id: oid(3) },
             OrderUpdate::UpdateQuantity {
@@ -102,7 +114,12 @@ pub fn book_orders(b: Book) -> Vec<Ord_> {
             mk_ts(Tmpl::S5, 2, p, 2),
             mk_ts(Tmpl::S3, 3, p, 2),
         ],
-        Book::B9 | Book::B10 => (0..70).map(|i| crate::seq_level::bulk_order(i, p)).collect(),
+        Book::B9 | Book::B10 | Book::Dead(_) => (0..70).map(|i| crate::seq_level::bulk_order(i, p)).collect(),
+        Book::Hist(_) => vec![
+            mk_ts(Tmpl::S10, 1, p, 1),
+            mk_ts(Tmpl::S5, 2, p, 2),
+            mk_ts(Tmpl::S3, 3, p, 3),
+        ],
         Book::B11 => vec![
             crate::seq_level::set_id_ts(
                 &pricelevel::OrderType::ReserveOrder {
@@ -643,10 +660,14 @@ pub fn evaluate(prog: &Program, ex: &Exec, want_c14: bool) -> Vec<Finding> {
                         }
                     }
                 }
+                if e.ev.found && st == St::InMap(e.ev.vis, e.ev.hid) {
+                    // the same version written over itself: nothing was supplied, lost or duplicated
+                    continue;
+                }
                 if e.ev.found {
+                    // the ledger stays usable: the replaced version is simply gone
                     add("C03", "overwrite", false, format!(
                         "a map insert of #{id} replaced a resting version (an order version was lost / duplicated)"));
-                    ledger_ok = false;
                 }
                 match st {
                     St::Held(h, li) if h == who => {
@@ -919,6 +940,15 @@ pub fn evaluate(prog: &Program, ex: &Exec, want_c14: bool) -> Vec<Finding> {
     }
 
     // ---- C12
+    {
+        let (bt, bc) = supply_bound(prog);
+        let d = &ex.post_drain;
+        if d.vis as u128 > bt || d.hid as u128 > bt || d.count > bc {
+            add("C12", "after_drain", false, format!(
+                "after the threads returned and a draining match ran, a reader sees visible={} hidden={} count={} - more than was ever supplied ({bt}, {bc} orders)",
+                d.vis, d.hid, d.count));
+        }
+    }
     for m in &ex.monitor {
         add("C12", "monitor", false, m.clone());
     }
